@@ -171,6 +171,8 @@ def run_property(pid, cfg, tier, known):
                         + sorted(f"external: {x}" for x in eng.trusted_used),
         "functions_under_contract": fn_info,
         "obligations_by_kind": by_kind,
+        "solver_result_cache": {"answered_from_cache": sum(1 for v in verdicts if v.solver.endswith("(cached)")),
+                                "note": "a cached answer is only ever used for a byte-identical query text; the text is regenerated from /repo's source on every run"},
         "solver_time_s": {"total": round(sum(v.seconds for v in verdicts), 2), "max": round(times[0][0], 2) if times else 0,
                           "slowest": [{"s": round(s, 2), "obligation": n} for s, n in times[:5]]},
         "solvers": {"z3": len([v for v in verdicts if v.solver == "z3"]), "cvc5": len([v for v in verdicts if v.solver == "cvc5"])},
